@@ -36,6 +36,9 @@ type modelEval struct {
 
 func newModelEval(o *Obligation) *modelEval {
 	q := o.smt(false)
+	if o.Result != nil && o.Result.CandidateQF {
+		q = o.smtQF()
+	}
 	return &modelEval{base: q, cache: map[string]string{}, deadline: time.Now().Add(12 * time.Second)}
 }
 
@@ -583,22 +586,13 @@ func tryReplay(p *Prog, o *Obligation, path string) bool {
 		}
 		check += call + "\n"
 	case "post":
-		// executable fragment of the post-condition
-		var cl *Clause
-		for i, c := range vc.fc.Ensures {
-			d := fmt.Sprintf("%d", i)
-			if c.Name != "" {
-				d = c.Name
-			}
-			if o.Detail == d || strings.HasPrefix(o.Name, vc.shortName()+"/post/"+d+"#") || o.Name == vc.shortName()+"/post/"+d {
-				cl = c
-			}
-		}
-		if cl == nil {
+		// executable fragment of the post-condition (the part this obligation checks)
+		if o.PartExpr == nil {
 			rf.Replayed = "not attempted: post-condition not found"
 			save()
 			return false
 		}
+		cl := &Clause{E: o.PartExpr}
 		gc := &goCompiler{b: b, vc: vc, results: nres, params: map[string]bool{}}
 		for _, prm := range fn.Params {
 			gc.params[prm.Name()] = true
@@ -850,6 +844,34 @@ func (g *goCompiler) compileT(x Expr, want string) (string, bool) {
 			}
 		}
 		return v + "[" + lo + ":" + hi + "]", true
+	case *EQuant:
+		return g.compileQuant(n)
+	case *ESpecScope:
+		return g.compileT(n.X, want)
+	case *ELet:
+		v, ok := g.compile(n.Val)
+		if !ok {
+			return "", false
+		}
+		saved := g.bound
+		nb := map[string]string{}
+		for k, x := range saved {
+			nb[k] = x
+		}
+		g.n++
+		vn := fmt.Sprintf("l%d", g.n)
+		nb[n.Name] = vn
+		g.bound = nb
+		body, ok2 := g.compileT(n.Body, want)
+		g.bound = saved
+		if !ok2 {
+			return "", false
+		}
+		ty := want
+		if ty == "" {
+			ty = "bool"
+		}
+		return "func() " + ty + " { " + vn + " := " + v + "; _ = " + vn + "; return " + body + " }()", true
 	case *ECall:
 		id, ok := n.Fun.(*EIdent)
 		if !ok {
@@ -891,6 +913,23 @@ func (g *goCompiler) compileT(x Expr, want string) (string, bool) {
 		case "isInf":
 			g.b.imports["math"] = true
 			return "math.IsInf(" + args[0] + ", 0)", true
+		}
+		switch id.Name {
+		case "runes":
+			g.b.imports["unicode/utf8"] = true
+			return "utf8.RuneCountInString(" + args[0] + ")", true
+		case "same":
+			return "(" + args[0] + " == " + args[1] + ")", true
+		}
+		if tw, ok := goTwins[id.Name]; ok && len(args) == tw.arity {
+			for _, imp := range tw.imports {
+				g.b.imports[imp] = true
+			}
+			out := tw.tmpl
+			for i, a := range args {
+				out = strings.ReplaceAll(out, fmt.Sprintf("$%d", i), a)
+			}
+			return out, true
 		}
 		sd, ok := g.vc.prog.cs.Specs[id.Name]
 		if !ok || sd.Body == nil {
@@ -948,6 +987,23 @@ func (g *goCompiler) goType(te TypeExpr, pkg string) string {
 
 // typeOf: a Go type for a conditional's branches (best effort, via the contract typer).
 func (g *goCompiler) typeOf(x Expr) string {
+	switch n := x.(type) {
+	case *EBin:
+		switch n.Op {
+		case "==", "!=", "<", "<=", ">", ">=", "&&", "||", "==>", "<==>":
+			return "bool"
+		}
+	case *EUn:
+		if n.Op == "!" {
+			return "bool"
+		}
+	case *EQuant:
+		return "bool"
+	case *EIdent:
+		if n.Name == "true" || n.Name == "false" {
+			return "bool"
+		}
+	}
 	var ty types.Type
 	func() {
 		defer func() { recover() }()
@@ -976,3 +1032,91 @@ func (g *goCompiler) typeOf(x Expr) string {
 }
 
 var _ = ssa.NaiveForm
+
+// goTwins: executable counterparts of uninterpreted specification functions, used only to
+// evaluate a failed post-condition on the real code during replay (DESIGN.md 2.12). Each is
+// the definition the contract files give in words.
+type goTwin struct {
+	arity   int
+	tmpl    string
+	imports []string
+}
+
+var goTwins = map[string]goTwin{
+	"inStrings":     {2, "func() bool { for _, x := range $0 { if x == $1 { return true } }; return false }()", nil},
+	"isInt":         {1, "big.NewFloat($0).IsInt()", []string{"math/big"}},
+	"valid":         {2, "(($0).VisitJSON($1) == nil)", nil},
+	"isEmptySchema": {1, "($0).IsEmpty()", nil},
+	"jsonEq":        {2, "reflect.DeepEqual($0, $1)", []string{"reflect"}},
+	"distinct":      {1, "isSliceOfUniqueItems($0)", nil},
+	"compilesGo":    {1, "func() bool { _, err := regexp.Compile($0); return err == nil }()", []string{"regexp"}},
+	"goMatches":     {2, "func() bool { re, err := regexp.Compile($0); return err == nil && re.MatchString($1) }()", []string{"regexp"}},
+	"intoGo":        {1, "intoGoRegexp($0)", nil},
+}
+
+// compileQuant: bounded quantifiers become loops.
+//   forall i int :: 0 <= i && i < N ==> P        exists i int :: 0 <= i && i < N && P
+//   forall k string :: has(m, k) ==> P
+func (g *goCompiler) compileQuant(q *EQuant) (string, bool) {
+	if len(q.Vars) != 1 {
+		return g.fail("quantifier over several variables")
+	}
+	v := q.Vars[0]
+	var guard, body Expr
+	if b, ok := q.Body.(*EBin); ok && q.Forall && b.Op == "==>" {
+		guard, body = b.L, b.R
+	} else if ok && !q.Forall && b.Op == "&&" {
+		// (0 <= i && i < N) && P  parses as ((0<=i && i<N) && P)
+		guard, body = b.L, b.R
+	} else {
+		return g.fail("quantifier shape")
+	}
+	saved := g.bound
+	nb := map[string]string{}
+	for k, x := range saved {
+		nb[k] = x
+	}
+	g.n++
+	vn := fmt.Sprintf("q%d", g.n)
+	nb[v.Name] = vn
+	defer func() { g.bound = saved }()
+	// integer range
+	if gb, ok := guard.(*EBin); ok && gb.Op == "&&" && v.Ty.Kind == "name" && v.Ty.Name == "int" {
+		lo, ok1 := gb.L.(*EBin)
+		hi, ok2 := gb.R.(*EBin)
+		if ok1 && ok2 && lo.Op == "<=" && hi.Op == "<" {
+			if id, ok := lo.R.(*EIdent); ok && id.Name == v.Name {
+				if id2, ok := hi.L.(*EIdent); ok && id2.Name == v.Name {
+					g.bound = saved
+					loS, okA := g.compile(lo.L)
+					hiS, okB := g.compile(hi.R)
+					g.bound = nb
+					bodyS, okC := g.compile(body)
+					if !okA || !okB || !okC {
+						return "", false
+					}
+					if q.Forall {
+						return "func() bool { for " + vn + " := int(" + loS + "); " + vn + " < int(" + hiS + "); " + vn + "++ { if !(" + bodyS + ") { return false } }; return true }()", true
+					}
+					return "func() bool { for " + vn + " := int(" + loS + "); " + vn + " < int(" + hiS + "); " + vn + "++ { if " + bodyS + " { return true } }; return false }()", true
+				}
+			}
+		}
+	}
+	// keys of a map
+	if c, ok := guard.(*ECall); ok && q.Forall {
+		if id, ok := c.Fun.(*EIdent); ok && id.Name == "has" && len(c.Args) == 2 {
+			if kid, ok := c.Args[1].(*EIdent); ok && kid.Name == v.Name {
+				g.bound = saved
+				mS, okA := g.compile(c.Args[0])
+				g.bound = nb
+				bodyS, okB := g.compile(body)
+				if !okA || !okB {
+					return "", false
+				}
+				return "func() bool { for " + vn + " := range " + mS + " { if !(" + bodyS + ") { return false } }; return true }()", true
+			}
+		}
+	}
+	return g.fail("unbounded quantifier")
+}
